@@ -265,6 +265,46 @@ static void twos(long seed, int n)
 		do_two(a, len[0], b, len[1], x & 1);
 	}
 }
+/* names in both cases, digits, punctuation on either side of the letters, bytes above 127: registered in several orders,
+ * then every registered name is typed (and a few that are not registered) */
+static void regcase(long seed)
+{
+	static const char *pool[] = { "Zap", "zap", "ZAP", "Boot", "apple", "Apple", "B", "b", "_x", "~x", "0", "9z", "Echo", "HELP", "helpx", "ech",
+				      "\303\251", "a-b", "A", "a", "Az", "aZ", "[", "{", "@", "`" };
+	int np = sizeof(pool) / sizeof(pool[0]);
+	drv_srand(seed);
+	for (int round = 0; round < 8; round++) {
+		reset();
+		int order[32];
+		for (int i = 0; i < np; i++) order[i] = i;
+		for (int i = np - 1; i > 0; i--) { int j = drv_below(i + 1), t = order[i]; order[i] = order[j]; order[j] = t; }
+		if (round == 0) for (int i = 0; i < np; i++) order[i] = i;
+		if (round == 1) for (int i = 0; i < np; i++) order[i] = np - 1 - i;
+		int count = round < 2 ? np : 3 + drv_below(np - 3);
+		for (int k = 0; k < count; k++) do_reg((const unsigned char *)pool[order[k]], (int)strlen(pool[order[k]]));
+		for (int k = 0; k < np; k++) {
+			const char *nm = pool[k];
+			for (int j = 0; nm[j]; j++) do_char((unsigned char)nm[j], k & 1);
+			do_char(32, k & 1); do_char(120, k & 1);
+			do_char(10, k & 1);
+		}
+	}
+}
+/* degenerate injections: the empty string, a lone newline, strings without a newline; whatever is injected, the line typed
+ * afterwards runs as typed */
+static void evaledge(void)
+{
+	static const char *inj[] = { "", "\n", "b", "", "b q\n", "\n\n", "", "ab", "" };
+	static const unsigned char n1[] = { 97 }, n2[] = { 97, 98 }, n3[] = { 98 };
+	for (int path = 0; path < 2; path++) {
+		reset(); do_reg(n2, 2); do_reg(n1, 1); do_reg(n3, 1);
+		for (unsigned i = 0; i < sizeof(inj) / sizeof(inj[0]); i++) {
+			do_eval((const unsigned char *)inj[i], (int)strlen(inj[i]));
+			if (i % 2 == 0) { do_char(97, path); do_char(32, path); do_char(120, path); do_char(10, path); }
+		}
+		do_char(98, path); do_char(10, path);
+	}
+}
 static void regorders(long seed)
 {
 	drv_srand(seed);
@@ -300,6 +340,8 @@ int main(void)
 		else if (drv_is(&c, "Streams")) streams(drv_arg(&c, 0), drv_arg(&c, 1));
 		else if (drv_is(&c, "Random")) randoms(drv_arg(&c, 0), drv_arg(&c, 1));
 		else if (drv_is(&c, "RegOrders")) regorders(drv_arg(&c, 0));
+		else if (drv_is(&c, "RegCase")) regcase(drv_arg(&c, 0));
+		else if (drv_is(&c, "EvalEdge")) evaledge();
 		else if (drv_is(&c, "Twos")) twos(drv_arg(&c, 0), drv_arg(&c, 1));
 		else { fprintf(stderr, "console_drv: unknown command %s\n", c.tok[0]); return 3; }
 	}
